@@ -127,6 +127,23 @@ def run_case(case, stats):
         env.close()
 
 
+EXHAUSTIVE_NOTE = "vf/core/matrix.py in the iteration engine: every subset of {sort, projection, deduplication, slice} on 3 bases x 2 data sets, followed by every sequence of 2 (thorough: 3) further operations from a list of 13"
+
+
+def exhaustive(tier, stats, shard, nshards, run):
+    from vf.core.matrix import select_matrix
+
+    for idx, (label, case) in enumerate(select_matrix(2 if tier == "quick" else 3, 1, bases=("leaf", "sel", "chain"))):
+        if idx % nshards != shard:
+            continue
+        try:
+            run(case)
+        except Violation as v:
+            v.case = case
+            raise
+        stats.c["matrix_cases"] += 1
+
+
 def describe(case):
     return describe_case(*case)
 
